@@ -10,7 +10,10 @@
 (***************************************************************************)
 EXTENDS TraceNet, AirInterp
 
-StripCid(s) == IF s.k \in {"exec", "failed"} THEN [s EXCEPT !.c = ""] ELSE s
+StripCid(s) ==
+    IF s.k \in {"exec", "failed"} THEN [s EXCEPT !.c = ""]
+    ELSE IF s.k = "cexec" THEN [s EXCEPT !.c = "", !.vals = [i \in 1..Len(s.vals) |-> [s.vals[i] EXCEPT !.provc = ""]]]
+    ELSE s
 StripTrace(tr) == [i \in 1..Len(tr) |-> StripCid(tr[i])]
 
 ResultSet(e) == {[id |-> e.res[i].id, rc |-> e.res[i].rc, v |-> e.res[i].v, body |-> e.res[i].body] : i \in 1..Len(e.res)}
